@@ -487,6 +487,8 @@ class FnSpec:
         self.ret = 'ret'
         self.novac = False
         self.assumed = False  # contract trusted: body dropped, reported as an assumption
+        self.crate = None     # override of the unit's crate (cross-crate callee)
+        self.features = None
 
 
 class Unit:
@@ -553,13 +555,15 @@ def parse_vc(path, variables=None):
         elif kw in ('fn', 'const', 'static'):
             cur = FnSpec()
             cur.kind = kw
-            mm = re.match(r'(\S+)(?:\s+as\s+(\S+))?(?:\s+within\s+/(.*)/)?(?:\s+nth\s+(\d+))?$', rest)
+            mm = re.match(r'(\S+)(?:\s+as\s+(\S+))?(?:\s+within\s+/(.*?)/)?(?:\s+nth\s+(\d+))?(?:\s+from\s+(\S+)(?:\s+\[(.*)\])?)?$', rest)
             if not mm:
                 raise Lost("%s: bad item line: %s" % (path, st))
             cur.path = mm.group(1)
             cur.alias = mm.group(2)
             cur.within = mm.group(3)
             cur.nth = int(mm.group(4) or 1)
+            cur.crate = mm.group(5)
+            cur.features = mm.group(6)
             u.fns.append(cur)
         elif kw == 'end':
             cur = None
@@ -626,6 +630,9 @@ def _stmt_end(s, pos):
             continue
         if c == ';':
             return j + 1
+        if c in '})]':
+            # statement is the tail expression of its block: insert right before the block's close
+            return j
         j += 1
     raise Lost("statement end not found")
 
@@ -709,6 +716,8 @@ def splice(item, spec, stats):
             body = body[:e] + '\n' + text + '\n' + body[e:]
         else:
             b = _line_start(body, m.start())
+            if body[b:m.start()].strip():
+                b = m.start()   # the statement shares its line with other code: insert right in front of it
             body = body[:b] + text + '\n' + body[b:]
     return sig.rstrip() + '\n' + spec.spec + body
 
@@ -729,9 +738,8 @@ def build_unit(vc_path, workdir, variables=None, vacuity=False):
     stats = {}
     parts = [PRELUDE_HEAD, u.prelude]
     fninfo = []
-    text = expand(u.crate, u.features, workdir) if any(True for _ in u.fns) else ''
     for spec in u.fns:
-        crate_text = text
+        crate_text = expand(spec.crate or u.crate, spec.features if spec.features is not None else u.features, workdir)
         modpath, _, name = spec.path.rpartition('::')
         item = find_item(crate_text, modpath, spec.kind, name, spec.nth, spec.within)
         src_hash = hashlib.sha256(item.encode()).hexdigest()[:12]
@@ -758,7 +766,7 @@ def build_unit(vc_path, workdir, variables=None, vacuity=False):
             item = item[:j + 1] + ' assert(false); /*VACUITY*/ ' + item[j + 1:]
         fninfo.append(dict(path=spec.path, alias=spec.alias or name, kind=spec.kind, src_hash=src_hash,
                            novac=spec.novac, assumed=spec.assumed))
-        parts.append('// ---- %s (from %s [%s])\n' % (spec.path, u.crate, u.features))
+        parts.append('// ---- %s (from %s [%s])\n' % (spec.path, spec.crate or u.crate, u.features))
         parts.append(item + '\n')
     parts.append('} // verus!\nfn main() {}\n')
     src = '\n'.join(parts)
